@@ -231,3 +231,173 @@ pub fn scenario(ch: &mut Chooser, _thorough: bool) -> Exec {
     }
     Exec { outcome: Digest::of64(&obs), violation, features: vec![] }
 }
+
+/// Connection handshakes under a hold, up to the listener's capacity: `n <= tcp_capacity`
+/// connects are issued while the link is held (from one or two client hosts), `Sim::links`
+/// must show exactly the n SYNs, none may be accepted while the hold lasts, and after the
+/// release every one of them is accepted exactly once and every connect returns Ok.
+pub fn held_syns_scenario(ch: &mut Chooser, _thorough: bool) -> Exec {
+    let cap = *ch.of("tcp_capacity", &[1usize, 2, 3]);
+    let n = if cap > 1 && ch.flag("one_fewer_than_the_capacity") { cap - 1 } else { cap };
+    let two_clients = n >= 2 && ch.flag("connects_from_two_hosts");
+    let hold_from_host = ch.flag("hold_called_from_host_code");
+    let accept_late = ch.flag("listener_starts_accepting_two_steps_after_the_release");
+
+    let mut b = builder(1);
+    b.tcp_capacity(cap).min_message_latency(Duration::from_millis(1)).max_message_latency(Duration::from_millis(1));
+    let mut sim = b.build();
+    #[derive(Default)]
+    struct H {
+        step: usize,
+        accepted: Vec<(usize, std::net::SocketAddr)>,
+        connected: Vec<(usize, usize, Result<std::net::SocketAddr, String>)>,
+        gate: bool,
+        do_hold: bool,
+    }
+    let st: Rc<RefCell<H>> = Rc::new(RefCell::new(H::default()));
+    let s1 = st.clone();
+    sim.host("srv", move || {
+        let s1 = s1.clone();
+        async move {
+            let l = TcpListener::bind(("0.0.0.0", 80)).await?;
+            let mut keep = vec![];
+            loop {
+                while !s1.borrow().gate {
+                    tokio::time::sleep(Duration::from_millis(1)).await;
+                }
+                let (s, peer) = l.accept().await?;
+                let at = s1.borrow().step;
+                s1.borrow_mut().accepted.push((at, peer));
+                keep.push(s);
+            }
+        }
+    });
+    let names = ["cli", "cl2"];
+    for (hi, name) in names.iter().enumerate() {
+        if hi == 1 && !two_clients {
+            break;
+        }
+        let s2 = st.clone();
+        let mine: Vec<usize> = (0..n).filter(|i| if two_clients { i % 2 == hi } else { hi == 0 }).collect();
+        sim.host(*name, move || {
+            let s2 = s2.clone();
+            let mine = mine.clone();
+            async move {
+                // the hold may come from this host's own code, in step 2
+                loop {
+                    if s2.borrow().step >= 2 {
+                        break;
+                    }
+                    tokio::time::sleep(Duration::from_millis(1)).await;
+                }
+                if hi == 0 && s2.borrow().do_hold {
+                    turmoil::hold("cli", "srv");
+                    if two_clients {
+                        turmoil::hold("cl2", "srv");
+                    }
+                }
+                tokio::time::sleep(Duration::from_millis(1)).await;
+                let mut tasks = vec![];
+                for i in mine {
+                    let s3 = s2.clone();
+                    tasks.push(tokio::task::spawn_local(async move {
+                        let r = TcpStream::connect(("srv", 80)).await;
+                        let at = s3.borrow().step;
+                        match r {
+                            Ok(s) => {
+                                let la = s.local_addr().unwrap();
+                                s3.borrow_mut().connected.push((i, at, Ok(la)));
+                                std::future::pending::<()>().await;
+                                drop(s);
+                            }
+                            Err(e) => s3.borrow_mut().connected.push((i, at, Err(errk(&e)))),
+                        }
+                    }));
+                }
+                std::future::pending::<()>().await;
+                drop(tasks);
+                Ok(())
+            }
+        });
+    }
+    let sip = sim.lookup("srv");
+    let cips: Vec<std::net::IpAddr> = if two_clients { vec![sim.lookup("cli"), sim.lookup("cl2")] } else { vec![sim.lookup("cli")] };
+    st.borrow_mut().do_hold = hold_from_host;
+    st.borrow_mut().gate = !accept_late;
+    let mut violation: Option<Violation> = None;
+    let mut obs: Vec<String> = vec![format!("cap={cap} n={n} two_clients={two_clients} hold_from_host={hold_from_host} accept_late={accept_late}")];
+    let release_at = 8;
+    for k in 0..24 {
+        st.borrow_mut().step = k;
+        if k == 2 && !hold_from_host {
+            sim.hold("cli", "srv");
+            if two_clients {
+                sim.hold("cl2", "srv");
+            }
+            obs.push("before step 2: hold(cli, srv) (and cl2, srv)".into());
+        }
+        if k == 6 {
+            let mut syns = 0;
+            for c in &cips {
+                syns += link_msgs(&sim, *c, sip).iter().filter(|m| m.contains("SYN")).count();
+            }
+            obs.push(format!("before step 6: {syns} SYNs in flight"));
+            if syns != n {
+                violation = Some(Violation::new("links-view", format!("{n} connects were issued under the hold but Sim::links shows {syns} SYNs in flight")));
+                break;
+            }
+            if !st.borrow().accepted.is_empty() || !st.borrow().connected.is_empty() {
+                violation = Some(Violation::new("delivered-while-held", format!("while the hold lasts: accepted {:?}, connect results {:?}", st.borrow().accepted, st.borrow().connected)));
+                break;
+            }
+        }
+        if k == release_at {
+            sim.release("cli", "srv");
+            if two_clients {
+                sim.release("cl2", "srv");
+            }
+            obs.push(format!("before step {k}: release"));
+        }
+        if k == release_at + 2 {
+            st.borrow_mut().gate = true;
+        }
+        match vx_core::catch(|| sim.step()) {
+            Ok(Ok(_)) => {}
+            Ok(Err(e)) => {
+                violation = Some(Violation::new("sim-error", e.to_string()));
+                break;
+            }
+            Err(p) => {
+                violation = Some(Violation::new(
+                    "lost-on-release",
+                    format!("step {k} panicked ({p}) although only {n} connection requests were pending on a listener with tcp_capacity {cap}"),
+                ));
+                break;
+            }
+        }
+    }
+    let g = st.borrow();
+    obs.push(format!("accepted {:?} connected {:?}", g.accepted, g.connected));
+    if violation.is_none() {
+        let oks: Vec<std::net::SocketAddr> = g.connected.iter().filter_map(|c| c.2.clone().ok()).collect();
+        let mut peers: Vec<std::net::SocketAddr> = g.accepted.iter().map(|a| a.1).collect();
+        let mut locals = oks.clone();
+        peers.sort();
+        locals.sort();
+        if g.connected.len() != n || oks.len() != n || g.accepted.len() != n || peers != locals {
+            violation = Some(Violation::new(
+                "lost-on-release",
+                format!("{n} held connection requests were released: connect results {:?}, accepted peers {:?} (every request must be accepted exactly once)", g.connected, g.accepted),
+            ));
+        } else if g.accepted.iter().any(|a| a.0 < release_at) || g.connected.iter().any(|c| c.1 < release_at) {
+            violation = Some(Violation::new("delivered-while-held", format!("accepted {:?} / connected {:?} before the release in step {release_at}", g.accepted, g.connected)));
+        }
+    }
+    drop(g);
+    if let Some(v) = violation.as_mut() {
+        v.sig = format!("held-syns|{}", v.clause);
+        v.scenario = "c08-held-syns".to_string();
+        v.actions = obs.clone();
+    }
+    Exec { outcome: Digest::of64(&obs), violation, features: vec![] }
+}
